@@ -172,7 +172,7 @@ PROPS = {
         "rule": "SAN/UCI writer output and reader round trip for every legal move of visited states; reader queries: mutated canonical SAN, long and partial spellings",
         "assumptions": BOARD_ASSUME,
         "jobs": [
-            chess_model("model-san", ["SanCanonical"], [], dict(MCQ, max_roots=30), dict(MCT, depth=1)),
+            chess_model("model-san", ["SanCanonical", "SanImplOK"], [], dict(MCQ, max_roots=30), dict(MCT, depth=1)),
             board_job("san", ["san", "sanread"], ["C20"], {"histories": 120, "subtrees": 30}, {"histories": 6000, "subtrees": 200, "deep": 5}, sample_kinds=["san", "sanread"]),
         ],
     },
